@@ -171,15 +171,7 @@ func peek(input OmegaInput) (output OmegaOutput) {
 
 	n, o, s, z := input.VM.Registers[7], input.VM.Registers[8], input.VM.Registers[9], input.VM.Registers[10]
 
-	if z == 0 {
-		input.VM.Registers[7] = OK
-		return OmegaOutput{
-			ExitReason: ExitContinue,
-			Addition:   input.Addition,
-		}
-	}
-
-	// z = offset
+	// z = offset (z = 0: both ranges are empty, but n must still name a machine)
 	if !isWriteable(o, z, *input.VM.Memory) { // not writeable, return
 		input.VM.Registers[7] = OOB
 		return OmegaOutput{
